@@ -91,8 +91,18 @@ let label_str l =
 
 let debug = (try Sys.getenv "RAFTABS_DEBUG" <> "" with Not_found -> false)
 let cur_seq = ref 0
+(* term of the leader that last extended the committed log (for the leader-completeness monitor) *)
+let gc_term = ref 0
+let prefix_of_log (g : entry list) (l : entry list) =
+  let rec go a b = match a, b with
+    | [], _ -> true
+    | x :: r, y :: r' -> x = y && go r r'
+    | _ :: _, [] -> false in
+  go g l
+
 let try_label l =
-  (* monitor: a second leader of a term is a violation whatever the configurations say *)
+  (* monitors: direct checks of the conclusions of the safety theorems on the abstract state, so that
+     they are also enforced on traces whose configurations do not meet the Overlap hypothesis *)
   (match l with
    | L_BecomeLeader c ->
      let n = node_of !st c in
@@ -100,10 +110,19 @@ let try_label l =
      (match term_leader !st n.cur with
       | Some c' when c' <> c ->
         raise (Reject (Printf.sprintf "two leaders in term %d: node %d was elected, now node %d wins with the votes of a majority of its own configuration (the two configurations have disjoint majorities)" (int_ n.cur) (int_ c') (int_ c)))
-      | _ -> ())
+      | _ -> ());
+     (* leader completeness: a leader of a term above the one in which the committed log was last
+        extended holds the whole committed log *)
+     if role_eqb n.rl Candidate && int_ n.cur > !gc_term && not (prefix_of_log (gcommit_of !st) n.log) then
+       raise (Reject (Printf.sprintf "node %d wins term %d without the committed log (%d entries committed up to term %d; its log has %d entries)"
+                        (int_ c) (int_ n.cur) (int_ (gcommit_len !st)) !gc_term (List.length n.log)))
    | _ -> ());
+  let glen0 = (match l with L_AdvanceCommit _ -> int_ (gcommit_len !st) | _ -> 0) in
   match apply_label !st l with
   | Some s' -> st := s'; incr n_labels; bump label_hist (label_name l);
+    (match l with
+     | L_AdvanceCommit (c, _) -> if int_ (gcommit_len !st) > glen0 then gc_term := max !gc_term (int_ (node_of !st c).cur)
+     | _ -> ());
     if debug then Printf.printf "  [%d] %s\n" !cur_seq (label_str l); true
   | None -> if debug then Printf.printf "  [%d] REFUSED %s\n" !cur_seq (label_str l); false
 let do_ l =
@@ -467,7 +486,7 @@ let init_trace (e : ev) =
    | (_, _, _, _, _, _, _, _, _, _, _, _, ents) :: _ -> boot_log := ents; boot_len := List.length ents
    | [] -> raise (Reject "no live node in the initial record"));
   e.nlines <- List.map mk_nrec e.nraw;
-  Hashtbl.reset last; Hashtbl.reset dirty; Hashtbl.reset pend_app; Hashtbl.reset precrash; Hashtbl.reset torn;
+  Hashtbl.reset last; Hashtbl.reset dirty; Hashtbl.reset pend_app; Hashtbl.reset precrash; Hashtbl.reset torn; gc_term := 0;
   let alive = List.filter (fun r -> r.alive) e.nlines in
   (match alive with
    | [] -> raise (Reject "no live node in the initial record")
